@@ -21,7 +21,7 @@ PROPS = {
     "C04": {"level": "fault_enumeration", "stages": ["native", "fvbuild"]},
     "C05": {"level": "exploration", "stages": ["native"]},
     "C06": {"level": "exploration", "stages": ["native", "nohooks", "constrained", "miri"]},
-    "C07": {"level": "exploration", "stages": ["native"]},
+    "C07": {"level": "exploration", "stages": ["native", "fvbuild"]},
     "C08": {"level": "exploration", "stages": ["native", "constrained"]},
     "C09": {"level": "exploration", "stages": ["native", "fvbuild"]},
     "C10": {"level": "exploration", "stages": ["native", "constrained"]},
